@@ -204,6 +204,149 @@ def judge_seed(ck, groups, expect, obs):
     return nchecked
 
 
+# --------------------------------------------------------------------------- part 3: SimHist
+
+def req_calls(r, seed, nbsimu=1):
+    """The concrete call(s) of a request of SimHist.tla (the last one is the simulation)."""
+    sim = r["sim"]
+    model = {"struct": r["struct"], "range": r["sc"] / 10.0, "sill": 1.0}
+    if r["par"]:
+        model["param"] = r["par"] / 10.0
+    if sim == "simtub":
+        return [{"op": "simtub", "cond": False, "model": model, "nbsimu": nbsimu, "seed": seed, "nbtuba": 10}]
+    if sim == "simtubc":
+        return [{"op": "simtub", "cond": True, "data": D4, "model": model, "nbsimu": nbsimu, "seed": seed, "nbtuba": 10}]
+    if sim == "simfft":
+        return [{"op": "simfft", "model": model, "nbsimu": nbsimu, "seed": seed}]
+    if sim == "spde":
+        return [{"op": "setseed", "seed": seed}, {"op": "spde", "model": model, "nbsimu": nbsimu, "cond": False}]
+    if sim == "gibbs":
+        bounds = [[-10, 0], [5, 15], [-30, -20], [0, 1], [12, 25]] if r["par"] == 1 else \
+                 [[-10, 0], [NAJ, NAJ], [NAJ, -5], [10, NAJ], [-3, 3]]
+        data = gibbs_data([[0, 0], [1, 1], [2, 0], [3, 1], [4, 0]], bounds)
+        return [{"op": "gibbs", "data": data, "mode": r["struct"], "nbsimu": nbsimu, "seed": seed, "nburn": 2, "niter": 6}]
+    if sim == "simpgs":
+        if r["struct"] == "S2":
+            return [{"op": "simpgs", "cond": True, "rule": "S2", "props": [0.5, 0.5], "gaus": True,
+                     "data": [[1, 1, 1], [3, 1, 2], [2, 3, 1], [0, 4, 2]], "nbsimu": nbsimu, "seed": seed}]
+        return [{"op": "simpgs", "cond": True, "rule": "ST3", "props": [0.25, 0.25, 0.5], "gaus": True,
+                 "data": [[1, 1, 1], [3, 1, 2], [2, 3, 3], [0, 4, 1]], "nbsimu": nbsimu, "seed": seed}]
+    raise Broken("no concrete call for request " + json.dumps(r))
+
+
+def hist_part(ck, tier, scripts, expect):
+    """SimHist.tla: every ordered pair (A, B) of the request catalogue as the sequence A, B, A; every call must give
+    what its request gives in a fresh process; per request: another seed and the ranks give other realisations."""
+    s1, s2 = seeds()
+    cfgp = os.path.join(ck.work, "hist.cfg")
+    open(cfgp, "w").write("SPECIFICATION Spec\nCONSTANTS\n  NBands = %d\nINVARIANT HistReproducible\n"
+                          "ACTION_CONSTRAINT Emit\nCHECK_DEADLOCK FALSE\n" % (2 if tier == "quick" else 3))
+    res = vlib.run_tlc("MC_SimHist", cfgp, workers=min(vlib.NCPU, 6), timeout=3000)
+    if res.violation:
+        raise Broken("SimHist.tla: the transcribed static memos violate HistReproducible (a refresh condition of the code "
+                     "lets a constant of an earlier simulation through):\n" + res.violation)
+    ck.add("states", res.distinct)
+    ck.add("transitions", res.generated)
+    reqs = {}
+    n = 0
+    for e in res.emitted:
+        if e.get("kind") != "aba":
+            continue
+        if not e["same"]:
+            raise Broken("SimHist.tla emitted a pair it does not hold reproducible")
+        n += 1
+        sid = "a%d" % n
+        calls = []
+        cap = []
+        for r in (e["a"], e["b"], e["a"]):
+            cc = [dict(c) for c in req_calls(r, s1)]
+            cc[-1]["capture"] = "hash"
+            calls += cc
+            cap.append(json.dumps(r, sort_keys=True))
+        scripts.append({"id": sid, "calls": calls})
+        expect[sid] = {"part": "aba", "a": e["a"], "b": e["b"], "keys": cap}
+        reqs[cap[0]] = e["a"]
+    for i, (key, r) in enumerate(sorted(reqs.items())):
+        c2 = [dict(c) for c in req_calls(r, s2)]
+        c2[-1]["capture"] = "hash"
+        scripts.append({"id": "q%d.s" % i, "calls": c2})
+        cr = [dict(c) for c in req_calls(r, s1, nbsimu=2)]
+        cr[-1]["capture"] = "full"
+        scripts.append({"id": "q%d.r" % i, "calls": cr})
+        expect["q%d" % i] = {"part": "req", "req": r, "key": key}
+    structs = set(r["struct"] for r in reqs.values() if r["sim"] == "simtub")
+    if len(structs) < 15:
+        raise Broken("vacuous: the request catalogue does not cover the 15 basic structures of the turning bands")
+    ck.cov["hist_requests"] = len(reqs)
+    ck.cov["hist_pairs_ABA"] = n
+    ck.cov["hist_tb_structures"] = sorted(structs)
+    log("[C13] MC_SimHist: %d states, %d requests, %d sequences A,B,A in %.1fs" % (res.distinct, len(reqs), n, res.wall))
+
+
+def judge_hist(ck, expect, obs):
+    """All the outputs of one request (first, after another request, third in A,B,A) are bit-identical."""
+    fresh = {}
+    allout = collections.defaultdict(list)          # request key -> (hash, script id, position)
+    for sid, ex in expect.items():
+        if ex["part"] != "aba":
+            continue
+        o = obs[sid]
+        if "crash" in o:
+            ck.disagree({"kind": "crash", "part": "history", "simulator": ex["a"]["sim"], "struct": ex["a"]["struct"], "signal": o["crash"]},
+                        {"sequence": [ex["a"], ex["b"], ex["a"]]})
+            continue
+        for pos, (key, c) in enumerate(zip(ex["keys"], o["calls"])):
+            sig = (c["hash"], c["err"], c["ncol"])
+            if c["err"] != 0 or c["ncol"] == 0:
+                ck.disagree({"kind": "call-failed", "part": "history", "simulator": json.loads(key)["sim"], "struct": json.loads(key)["struct"]},
+                            {"sequence": [ex["a"], ex["b"], ex["a"]], "position": pos + 1})
+            allout[key].append((sig, sid, pos))
+            if pos == 0:
+                fresh.setdefault(key, sig)
+    ncmp = 0
+    for key, lst in allout.items():
+        ref = fresh[key]
+        reported = set()
+        for sig, sid, pos in lst:
+            ncmp += 1
+            if sig != ref:
+                ex = expect[sid]
+                seq = [ex["a"], ex["b"], ex["a"]]
+                prev = seq[pos - 1]
+                tag = (prev["sim"], prev["struct"], prev["par"], prev["sc"])
+                if tag in reported:
+                    continue
+                reported.add(tag)
+                r = json.loads(key)
+                ck.disagree({"kind": "history-dependent", "simulator": r["sim"], "struct": r["struct"], "after": prev["sim"] + ":" + prev["struct"]},
+                            {"request": r, "sequence_executed_in_one_process": seq, "position_of_the_deviating_call": pos + 1,
+                             "output_hash": sig[0], "hash_in_a_fresh_process": ref[0],
+                             "concrete_calls": [req_calls(x, seeds()[0]) for x in seq]})
+    nreq = 0
+    for qid, ex in expect.items():
+        if ex["part"] != "req":
+            continue
+        nreq += 1
+        r = ex["req"]
+        os_, or_ = obs[qid + ".s"], obs[qid + ".r"]
+        base = {"simulator": r["sim"], "struct": r["struct"]}
+        if "crash" in os_ or "crash" in or_:
+            ck.disagree(dict(base, kind="crash", part="history"), {"request": r})
+            continue
+        if ex["key"] in fresh and os_["calls"][-1]["hash"] == fresh[ex["key"]][0]:
+            ck.disagree(dict(base, kind="seeds-not-distinct"), {"request": r, "seeds": seeds()})
+        call = or_["calls"][-1]
+        cols = columns(call)
+        if call["ncol"] < 2 or call["ncol"] % 2:
+            ck.disagree(dict(base, kind="ranks-missing", ncol=call["ncol"]), {"request": r, "nbsimu": 2})
+        elif all(cols[2 * k] == cols[2 * k + 1] for k in range(call["ncol"] // 2)):
+            # columns are ordered rank + nbsimu * (function): ranks 1 and 2 are the columns 2k and 2k+1
+            ck.disagree(dict(base, kind="ranks-not-distinct"), {"request": r, "nbsimu": 2})
+    ck.cov["hist_calls_compared"] = ncmp
+    ck.cov["hist_requests_seed_rank_checked"] = nreq
+    return ncmp + nreq
+
+
 # --------------------------------------------------------------------------- part 2: SimCond
 
 COND_CFG = """SPECIFICATION Spec
@@ -290,6 +433,8 @@ def cond_part(ck, tier, scripts, expect):
             n += 1
             sid = "c%d" % n
             ncase[sim] += 1
+            if c.get("mask"):
+                ncase[sim + "-selection"] += 1
             if sim in ("simtub", "simtub-near"):
                 call = {"op": "simtub", "cond": True, "data": e["data"], "model": c["model"], "nbsimu": c["nbsimu"],
                         "seed": c["seed"], "nbtuba": 20, "capture": "full"}
@@ -310,9 +455,11 @@ def cond_part(ck, tier, scripts, expect):
             elif sim == "gibbs":
                 data = gibbs_data(e["sites"], e["bounds"])
                 for k in range(1, e["sweeps"] + 1):
-                    scripts.append({"id": "%s.%d" % (sid, k), "trace": k == e["sweeps"],
-                                    "calls": [{"op": "gibbs", "data": data, "mode": c["mode"], "nbsimu": c["nbsimu"],
-                                               "seed": c["seed"], "nburn": c["nburn"], "niter": k, "capture": "full"}]})
+                    call = {"op": "gibbs", "data": data, "mode": c["mode"], "nbsimu": c["nbsimu"],
+                            "seed": c["seed"], "nburn": c["nburn"], "niter": k, "capture": "full"}
+                    if c["mask"]:
+                        call["sel"] = e["sel"]
+                    scripts.append({"id": "%s.%d" % (sid, k), "trace": k == e["sweeps"], "calls": [call]})
             elif sim in ("simpgs", "simbipgs"):
                 r1 = rules[c["rule"]]
                 if sim == "simpgs":
@@ -326,11 +473,13 @@ def cond_part(ck, tier, scripts, expect):
                     base = {"op": "simbipgs", "cond": True, "rule": c["rule"], "rule2": c["rule2"], "props": props,
                             "data": data, "nbsimu": c["nbsimu"], "seed": c["seed"], "nburn": 5, "niter": 20,
                             "capture": "full"}
+                if c["mask"]:
+                    base["sel"] = e["sel"]
                 scripts.append({"id": sid + ".f", "trace": True, "calls": [dict(base, gaus=False)]})
                 scripts.append({"id": sid + ".g", "calls": [dict(base, gaus=True)]})
             expect[sid] = {"part": "case", "e": e}
     need = ["tgb-regular", "tgb-degenerate", "tgb-swapped", "simtub", "simtub-near", "simfft", "spde", "spdec", "simtub-nc",
-            "gibbs", "simpgs", "simbipgs"]
+            "gibbs", "simpgs", "simbipgs", "gibbs-selection", "simpgs-selection", "simbipgs-selection"]
     for k in need:
         if ncase[k] == 0:
             raise Broken("vacuous: no case of category " + k)
@@ -449,13 +598,13 @@ def judge_ranks(ck, sid, ex, obs):
 def judge_gibbs(ck, sid, ex, obs):
     e = ex["e"]
     c = e["c"]
-    base = {"simulator": "gibbs_sampler", "mode": c["mode"]}
+    base = {"simulator": "gibbs_sampler", "mode": c["mode"], "selection": bool(c["mask"])}
     nsteps = 0
     for k in range(1, e["sweeps"] + 1):
         o = obs["%s.%d" % (sid, k)]
         replay = {"call": "gibbs_sampler(db, model exp(4,1), nbsimu=%d, seed=%d, gibbs_nburn=%d, gibbs_niter=%d, mode %s)" %
                           (c["nbsimu"], c["seed"], c["nburn"], k, c["mode"]),
-                  "sites": e["sites"], "bounds10_L_U": [[na(b[0]), na(b[1])] for b in e["bounds"]]}
+                  "sites": e["sites"], "bounds10_L_U": [[na(b[0]), na(b[1])] for b in e["bounds"]], "selection": e["sel"]}
         if "crash" in o:
             ck.disagree(dict(base, kind="crash", signal=o["crash"]), replay)
             return
@@ -469,6 +618,8 @@ def judge_gibbs(ck, sid, ex, obs):
         bad = None
         for r, col in enumerate(columns(call)):
             for i, b in enumerate(e["bounds"]):
+                if not e["sel"][i]:
+                    continue            # masked sample: not simulated, nothing is promised
                 v = col[i]
                 lo, up = na(b[0]), na(b[1])
                 nsteps += 1
@@ -486,8 +637,8 @@ def judge_pgs(ck, sid, ex, obs, rules):
     c = e["c"]
     bi = c["sim"] == "simbipgs"
     nb = c["nbsimu"]
-    base = {"simulator": c["sim"], "layout_predicted": not e["layout_ok"]}
-    replay = {"call": "%s(dbin, dbout 5x5, ruleprop, models cub/exp/sph/mat, NeighUnique, nbsimu=%d, seed=%d, nbtuba=20, nburn=5, niter=20)" %
+    base = {"simulator": c["sim"], "layout_predicted": not e["layout_ok"], "selection": bool(c["mask"])}
+    replay = {"selection": e["sel"], "call": "%s(dbin, dbout 5x5, ruleprop, models cub/exp/sph/mat, NeighUnique, nbsimu=%d, seed=%d, nbtuba=20, nburn=5, niter=20)" %
                       (c["sim"], nb, c["seed"]),
               "rule": c["rule"], "rule2": c.get("rule2"), "props": e["props"], "data_xy": e["data"], "facies": c["fac"],
               "facies2": c.get("fac2")}
@@ -528,6 +679,8 @@ def judge_pgs(ck, sid, ex, obs, rules):
                     return
             # facies at data = observed facies; Gaussians at data within the thresholds of the observed facies
             for i, node in enumerate(nodes):
+                if not e["sel"][i]:
+                    continue            # masked datum: does not condition
                 want = facs[ipgs][i]
                 box = rl[ipgs]["boxes"][want - 1]
                 gs = [gk[node] for gk in g] + [0.0]
@@ -548,6 +701,7 @@ def run(tier):
     scripts, expect = [], {}
     groups = seed_part(ck, tier, scripts, expect)
     rules = cond_part(ck, tier, scripts, expect)
+    hist_part(ck, tier, scripts, expect)
     sp = os.path.join(ck.work, "scripts.ndjson")
     op = os.path.join(ck.work, "out.ndjson")
     td = os.path.join(ck.work, "trace")
@@ -560,6 +714,7 @@ def run(tier):
         raise Broken("harness produced %d records for %d scripts" % (len(obs), len(scripts)))
     log("[C13] %d scripts executed (%d crashes)" % (stats["scripts"], stats["crashes"]))
     ncmp = judge_seed(ck, groups, expect, obs)
+    ncmp += judge_hist(ck, expect, obs)
     for sid, ex in expect.items():
         if ex["part"] == "tgb":
             judge_tgb(ck, sid, ex, obs)
